@@ -213,7 +213,7 @@ func oracle(ops []string) (key, desc string) {
 				if ans != exp {
 					return "read-mismatch|" + at + " answered " + ans + " want " + exp
 				}
-			case "hash", "commit", "reopen", "dbcommit":
+			case "hash", "commit", "reopen", "dbcommit", "commitref":
 				if e := checkRootOf(ans, want, at); e != "" {
 					return e
 				}
